@@ -7,7 +7,7 @@
     `_RULESETS`.
   DetectionRule objects live on a heap (a list, addressed by index) because the code mutates them
   through shared references; a Ruleset holds references.
-  `Ruleset.from_files` is modelled as repaired by fixes/D60_from_files_scales_once.patch (the rules
+  `Ruleset.from_files` is modelled as repaired by fixes/D201_from_files_scales_once.patch (the rules
   are created unscaled and scaled once by the constructor).
 -/
 import ASV.Model.Parser
@@ -45,7 +45,7 @@ def postInit (refs : List Nat) (m : Mul) (h : Heap) : Heap :=
 /-- what a ruleset's rules look like now -/
 def RS.read (rs : RS) (h : Heap) : List Rule := rs.refs.filterMap (h[·]?)
 
-/-- `Ruleset.from_files(…, multipliers)`: `create_rules` without multipliers (D60), the objects are
+/-- `Ruleset.from_files(…, multipliers)`: `create_rules` without multipliers (D201), the objects are
     allocated, the constructor scales them -/
 def fromFiles (rules : List Rule) (m : Mul) (h : Heap) : RS × Heap :=
   let refs := List.range' h.length rules.length
